@@ -314,3 +314,24 @@ fn parked_breakpoint_is_removable_by_its_old_address() {
     println!("rest: {rest:?}");
     assert!(!rest.iter().any(|h| h == "lib_a.rs:4"), "a removed breakpoint must not stop the program again");
 }
+
+/// restart while the library with a breakpoint is loaded
+#[test]
+fn restart_while_library_with_breakpoint_is_loaded() {
+    let hits = Hits::default();
+    let mut debugger = new_debugger(hits.clone());
+    debugger.add_deferred_at_function("a_sum");
+    debugger.set_breakpoint_at_fn("checkpoint").unwrap();
+    debugger.start_debugee().unwrap();
+    let mut first = hits.take();
+    debugger.continue_debugee().unwrap(); first.extend(hits.take());
+    assert_eq!(first.last().map(|s| s.as_str()), Some("lib_a.rs:4"));
+    let before: Vec<_> = debugger.breakpoints_snapshot().into_iter().map(|b| b.number).collect();
+    debugger.restart_debugee().expect("restart");
+    let after: Vec<_> = debugger.breakpoints_snapshot().into_iter().map(|b| b.number).collect();
+    assert_eq!(before, after, "user breakpoints must survive the restart");
+    let mut second = hits.take();
+    second.extend(run_to_exit(&mut debugger, &hits));
+    println!("second run: {second:?}");
+    assert_eq!(second.iter().filter(|h| h.as_str() == "lib_a.rs:4").count(), 2);
+}
